@@ -1,6 +1,8 @@
 package k8s
 
 import (
+	"strings"
+
 	"github.com/ozontech/file.d/pipeline"
 	"github.com/ozontech/file.d/plugin/input/k8s/meta"
 	insaneJSON "github.com/ozontech/insane-json"
@@ -337,4 +339,41 @@ func VerifH_C15_k8sSplit() {
 			run, pieces = "", ""
 		}
 	}
+}
+
+// C15.H2c: a very long container log line (its chunks add up to more than the action's 128 KiB buffer
+// prediction) followed by ordinary lines: the lines after it are still joined correctly.
+func VerifH_C15_k8sHugeLine() {
+	p := verifAction(0, false)
+	feed := func(txt string) (pipeline.ActionResult, *insaneJSON.Root) {
+		root := insaneJSON.Spawn()
+		if err := root.DecodeString(`{"log":"` + txt + `",` + verifMetaFields + `}`); err != nil {
+			vf.Fail("bad-template")
+		}
+		return p.Do(&pipeline.Event{Root: root, Size: len(txt) + 10}), root
+	}
+	half := strings.Repeat("x", vf.Param("HALF", 70000))
+	res, _ := feed(half)
+	vf.Assert(res == pipeline.ActionCollapse, "partial-chunk-is-collapsed")
+	res, root := feed(half + `\n`)
+	vf.Assert(res == pipeline.ActionPass, "line-end-passes")
+	got := root.Dig("log").AsString()
+	vf.Assert(len(got) == 2*len(half)+1, "huge-line-is-complete")
+	// ordinary lines afterwards
+	for i := 0; i < vf.Param("LINES", 1); i++ {
+		a := verifChunks[vf.Choose("chunk", len(verifChunks))]
+		b := verifChunks[vf.Choose("chunk", len(verifChunks))] + `\n`
+		res, _ = feed(a)
+		vf.Assert(res == pipeline.ActionCollapse, "partial-chunk-is-collapsed")
+		res, root = feed(b)
+		vf.Assert(res == pipeline.ActionPass, "line-end-passes")
+		want := `"` + a + b + `"`
+		if vf.Param("twin", 0) == 1 {
+			vf.Assert(string(root.Dig("log").AppendEscapedString(nil)) != want, "line-after-a-huge-line-is-in-order-concatenation")
+			return
+		}
+		vf.Assert(string(root.Dig("log").AppendEscapedString(nil)) == want, "line-after-a-huge-line-is-in-order-concatenation")
+		vf.Assert(verifStrictJSON([]byte(root.EncodeToString())), "output-is-strictly-valid-json")
+	}
+	vf.Reach("lines-after-huge-line")
 }
